@@ -517,15 +517,16 @@ func (e *Env) call(x *ECall) SVal {
 			e.fail("base of non-slice")
 		}
 		return iv(v.T)
-	case "same", "filled":
+	case "same", "filled", "dseg":
+		// dseg(a, i, v, j, n):  a[i+t] == uf_dchar(v, j+t) for 0 <= t < n - the bytes are characters j.. of the decimal text of v
 		// same(a, i, b, j, n):  a[i+t] == b[j+t] for 0 <= t < n      filled(a, i, n, c):  a[i+t] == c for 0 <= t < n
 		// a and b are slices of scalars; either may be written old(s): its cells are then read in the old state.
 		// The quantified variable is the cell *address* in a's array, so that the trigger is a plain (select A addr):
 		// a fact about a segment fires on every read of that array, and a goal about a segment skolemises to one read.
-		if x.Fn == "same" {
-			need(5)
-		} else {
+		if x.Fn == "filled" {
 			need(4)
+		} else {
+			need(5)
 		}
 		sliceIn := func(a Expr) (SVal, *State) {
 			st := e.cur
@@ -577,6 +578,14 @@ func (e *Env) call(x *ECall) SVal {
 			j := e.integer(args[3])
 			n = e.integer(args[4])
 			rhs = Select(e.g.arr(bst, key, es), Add(bv2.T, Add(j, Sub(q, lo))), es)
+		} else if x.Fn == "dseg" {
+			v, j := e.integer(args[2]), e.integer(args[3])
+			n = e.integer(args[4])
+			if !e.g.declared["uf_dchar_2"] {
+				e.g.declared["uf_dchar_2"] = true
+				e.g.decls = append(e.g.decls, "(declare-fun uf_dchar_2 (Int Int) Int)")
+			}
+			rhs = app(SInt, "uf_dchar_2", v, Add(j, Sub(q, lo)))
 		} else {
 			n = e.integer(args[2])
 			rhs = e.eval(args[3]).T
